@@ -86,7 +86,7 @@ CHECKS = {
         runs=[dict(check="c03", scale=10, timeout_s=900)],
         required=["events_created", "overflows", "event_objects_attributed", "R1_release_justified", "R3_conservation_ok", "R4_order_ok", "R5_selection_prefix_ok", "R5_unsol_selection_ok",
                   "confirms_with_expected_release", "sol_timeouts", "late_confirms", "aborts", "reconnect_close", "reconnect_preempt", "disable_during_unsol_wait", "reads_deferred", "unsol_retries",
-                  "event_buffer_audits", "event_buffer_audits_at_clear_written", "event_buffer_audits_at_events_info", "event_buffer_audits_at_write_unsolicited"],
+                  "event_buffer_audits", "event_buffer_audits_at_clear_written", "event_buffer_audits_at_events_info", "event_buffer_audits_at_write_unsolicited", "reconnect_by_disable"],
         thorough_scale=30.0,
         abnormal_exit_is_violation=True,
         assumptions=HARNESS_TRUST + ["event objects are attributed to ledger ids by (type, index, value, flags, time when the variation carries it); updates use unique timestamps"],
@@ -99,7 +99,7 @@ CHECKS = {
               "distinct = (profile, solicited/unsolicited, fragment number, follow-up action) tuples"),
         runs=[dict(check="c13", scale=10, timeout_s=900)],
         required=["iin_checked", "class_bit_ok", "overflow_bit_set_ok", "restart_bit_ok", "app_bit_set_ok", "broadcast_bit_ok", "restart_writes", "broadcasts", "overflow_discarded_carried_event",
-                  "event_buffer_audits", "event_buffer_audits_at_clear_written", "event_buffer_audits_at_events_info"],
+                  "event_buffer_audits", "event_buffer_audits_at_clear_written", "event_buffer_audits_at_events_info", "reconnect_by_disable"],
         thorough_scale=30.0,
         abnormal_exit_is_violation=True,
         assumptions=HARNESS_TRUST,
